@@ -605,28 +605,37 @@ err:
 static PyObject*
 Generic_set_xor(PyObject* self, PyObject* other)
 {
-    PyObject* set_self = NULL;
-    PyObject* set_other = NULL;
-    PyObject* set_xor = NULL;
+    /* A copy of self with every distinct element of other toggled.  Like all
+       other operations this only relies on the ordering of the keys (going
+       through builtin sets required them to be hashable as well). */
+    PyObject* copy = NULL;
     PyObject* result = NULL;
+    PyNumberMethods* nb = NULL;
 
-    set_self = PySet_New(self);
-    set_other = PySet_New(other);
-    if (set_self == NULL || set_other == NULL) {
-        goto err;
+    if (!PyObject_TypeCheck(self, &SetType)
+        && !PyObject_TypeCheck(self, &TreeSetType)) {
+        /* reflected call (iterable ^ set): the operation is symmetric */
+        result = self;
+        self = other;
+        other = result;
     }
 
-    set_xor = PyNumber_Xor(set_self, set_other);
-    if (set_xor == NULL) {
-        goto err;
+    copy = PyObject_CallFunctionObjArgs((PyObject*)Py_TYPE(self), self, NULL);
+    if (copy == NULL) {
+        return NULL;
     }
 
-    result = PyObject_CallFunctionObjArgs((PyObject*)Py_TYPE(self), set_xor, NULL);
+    nb = Py_TYPE(copy)->tp_as_number;
+    if (nb == NULL || nb->nb_inplace_xor == NULL) {
+        Py_DECREF(copy);
+        Py_INCREF(Py_NotImplemented);
+        return Py_NotImplemented;
+    }
 
-err:
-    Py_XDECREF(set_self);
-    Py_XDECREF(set_other);
-    Py_XDECREF(set_xor);
+    /* the new reference is the copy itself, or NotImplemented
+       when other cannot be iterated */
+    result = nb->nb_inplace_xor(copy, other);
+    Py_DECREF(copy);
     return result;
 }
 
